@@ -452,6 +452,8 @@ pub struct CConstraint {
     pub p: *mut LlgConstraint,
     pub n_vocab: usize,
     pub ctok: Arc<CTok>,
+    /// temperature field of the last LlgMaskResult
+    pub last_mask_temp: f32,
 }
 unsafe impl Send for CConstraint {}
 impl Drop for CConstraint {
@@ -478,6 +480,7 @@ impl CConstraint {
             p,
             n_vocab: world.n_vocab(),
             ctok: ctok.clone(),
+            last_mask_temp: 0.0,
         }
     }
     pub fn r(&mut self) -> &mut LlgConstraint {
@@ -548,6 +551,7 @@ impl CH {
                 if llg_compute_mask(c.r(), &mut res) != 0 {
                     bail!("{}", c.err().unwrap_or_default());
                 }
+                c.last_mask_temp = res.temperature;
                 if res.is_stop {
                     Ok(StepOut::Stop)
                 } else if res.sample_mask.is_null() {
@@ -594,6 +598,13 @@ impl CH {
             }
         }
     }
+    /// (temperature after the last compute_mask, temperature field of that mask result)
+    pub fn temperature(&mut self) -> (f32, f32) {
+        match self {
+            CH::R(c) => (c.temperature, c.step_result().temperature.unwrap_or(c.temperature)),
+            CH::C(c) => (llg_get_temperature(c.r()), c.last_mask_temp),
+        }
+    }
     pub fn is_stopped(&mut self) -> bool {
         match self {
             CH::R(c) => c.step_result().is_stop(),
@@ -615,6 +626,7 @@ impl CH {
                     p,
                     n_vocab: c.n_vocab,
                     ctok: c.ctok.clone(),
+                    last_mask_temp: c.last_mask_temp,
                 })
             }
         }
